@@ -294,7 +294,8 @@ def FullStatement_tr_invariance_all (T : Tr) (s : SchemaD) (fx : Fixes) (d : Doc
   ∀ r ∈ Rule.all, (Silent s fx r (T.doc d) ↔ Silent s fx r d)
 
 /-- **perm_selections / perm_arguments / alpha_fragments for 24 rules** (the 25 of `ProvedTrAll` without
-    SingleFieldSubscriptions, whose clause - the collected response keys, C06-H6 - is not shown invariant): code of /repo HEAD, documents with unique
+    SingleFieldSubscriptions, whose clause - the collected response keys, C06-H6 - is shown invariant in
+    Props/C06_inv10.lean: `tr_invariance_single_field_subscriptions`, `tr_invariance_25_partial`): code of /repo HEAD, documents with unique
     fragment names that are non-empty before and after the renaming (needed by NoFragmentCycles only) -/
 theorem tr_invariance_all25_partial (T : Tr) (hinj : ∀ a b, T.frag a = T.frag b → a = b) (s : SchemaD) (fx : Fixes)
     (hfx : HeadVars fx) (d : Doc) (hnd : Spec.uniqueFragmentNames d) (hne : NamesNonEmpty d)
